@@ -108,6 +108,7 @@ def run(ctx):
     ctx.floor('C04.4', 8)
     file_header(ctx)
     check_pairing(ctx, 'C04.6')
+    classification(ctx)
 
 
 def headers_dict_stores(P):
@@ -412,3 +413,189 @@ def file_header(ctx):
     else:
         ctx.fail('C04.5', P.func('read.SgzReader.__init__'), 'file_text_header / file_binary_header', 'the reader does not split the '
                  'stored SEG-Y header at the boundaries of the specification: %s' % lds)
+
+
+# ---------------------------------------------------------------------------
+# C04.7  heuristic classification covers every (first trace, last trace) combination of a header field.
+#
+# Abstract domain: a field is described by three booleans  E (first == last), Z1 (first == 0), ZL (last == 0); the
+# consistent combinations are the five classes below.  The helper methods of HeaderwordInfo that return lists of
+# header words are evaluated as predicates over that domain (comprehension filters `v != 0`, `v1 == vl`, `v1 != vl`,
+# membership in another helper, and / or / not).  No header value is enumerated.
+
+CLASSES = [
+    ('constant zero', dict(E=True, Z1=True, ZL=True)),
+    ('constant non-zero', dict(E=True, Z1=False, ZL=False)),
+    ('zero in the first trace, non-zero in the last', dict(E=False, Z1=True, ZL=False)),
+    ('non-zero in the first trace, zero in the last', dict(E=False, Z1=False, ZL=True)),
+    ('different non-zero values in the first and last trace', dict(E=False, Z1=False, ZL=False)),
+]
+
+
+class _Pred:
+    def __init__(self, P, cls):
+        self.P, self.cls = P, cls
+        self.memo = {}
+
+    def of_method(self, name, depth=0):
+        if name in self.memo:
+            return self.memo[name]
+        m = self.cls.methods.get(name)
+        if m is None or depth > 6:
+            raise AnalysisError('HeaderwordInfo.%s: helper not found' % name)
+        rets = [r for r in ast.walk(m.node) if isinstance(r, ast.Return) and r.value is not None]
+        if len(rets) != 1:
+            raise AnalysisError('HeaderwordInfo.%s: expected one return' % name)
+        env = self._env(m)
+        res = self.of_expr(m, rets[0].value, env, depth)
+        self.memo[name] = res
+        return res
+
+    def _env(self, m):
+        """names bound to the first / last trace header (or their items) inside m."""
+        env = {}
+        for a in ast.walk(m.node):
+            if isinstance(a, ast.Assign):
+                v = U(a.value)
+                tg = a.targets[0]
+                if isinstance(tg, ast.Tuple) and len(tg.elts) == 2:
+                    if v.endswith('_get_first_last_headers()'):
+                        env[U(tg.elts[0])], env[U(tg.elts[1])] = 'first', 'last'
+                    elif isinstance(a.value, ast.Tuple) and len(a.value.elts) == 2:
+                        for t, x in zip(tg.elts, a.value.elts):
+                            k = self._which(U(x))
+                            if k:
+                                env[U(t)] = k
+                elif isinstance(tg, ast.Name):
+                    k = self._which(v)
+                    if k:
+                        env[tg.id] = k
+        return env
+
+    @staticmethod
+    def _which(txt):
+        if 'header[0]' in txt:
+            return 'first'
+        if 'header[-1]' in txt:
+            return 'last'
+        return None
+
+    def of_expr(self, m, e, env, depth):
+        """-> frozenset of class indices whose fields are in the list denoted by e."""
+        if isinstance(e, ast.Call) and isinstance(e.func, ast.Attribute) and isinstance(e.func.value, ast.Name) and \
+                e.func.value.id == 'self' and not e.args:
+            return self.of_method(e.func.attr, depth + 1)
+        if isinstance(e, ast.Name):
+            ds = [a for a in ast.walk(m.node) if isinstance(a, ast.Assign) and U(a.targets[0]) == e.id]
+            if len(ds) == 1:
+                return self.of_expr(m, ds[0].value, env, depth)
+            raise AnalysisError('%s: `%s` is assigned %d times' % (m.qualname, e.id, len(ds)))
+        if isinstance(e, ast.ListComp) and len(e.generators) == 1:
+            g = e.generators[0]
+            base, binds = self._iter(m, g, env, depth)
+            out = set()
+            for i in base:
+                vals = CLASSES[i][1]
+                ok = all(self._truth(m, t, binds, vals, i, env, depth) for t in g.ifs)
+                if ok:
+                    out.add(i)
+            return frozenset(out)
+        raise AnalysisError('%s: list expression `%s` is outside the classification algebra' % (m.qualname, U(e)[:60]))
+
+    def _iter(self, m, g, env, depth):
+        it, tg = g.iter, g.target
+        allc = frozenset(range(len(CLASSES)))
+        # zip(first, last) with ((k1, v1), (kl, vl))
+        if isinstance(it, ast.Call) and U(it.func) == 'zip' and len(it.args) == 2 and isinstance(tg, ast.Tuple) and len(tg.elts) == 2:
+            sides = [env.get(U(a)) or self._which(U(a)) for a in it.args]
+            if None in sides:
+                raise AnalysisError('%s: zip over `%s` is not over the first / last trace header' % (m.qualname, U(it)))
+            binds = {}
+            for t, side in zip(tg.elts, sides):
+                if isinstance(t, ast.Tuple) and len(t.elts) == 2:
+                    binds[U(t.elts[1])] = side
+            return allc, binds
+        # <header>.items()  with (k, v)
+        if isinstance(it, ast.Call) and isinstance(it.func, ast.Attribute) and it.func.attr == 'items' and isinstance(tg, ast.Tuple):
+            side = env.get(U(it.func.value)) or self._which(U(it.func.value))
+            if side is None:
+                raise AnalysisError('%s: items() of `%s` is not the first / last trace header' % (m.qualname, U(it.func.value)))
+            return allc, {U(tg.elts[1]): side}
+        # another helper list
+        base = self.of_expr(m, it, env, depth)
+        return base, {'@elt': U(tg)}
+
+    def _truth(self, m, t, binds, vals, i, env, depth):
+        if isinstance(t, ast.BoolOp):
+            vs = [self._truth(m, x, binds, vals, i, env, depth) for x in t.values]
+            return all(vs) if isinstance(t.op, ast.And) else any(vs)
+        if isinstance(t, ast.UnaryOp) and isinstance(t.op, ast.Not):
+            return not self._truth(m, t.operand, binds, vals, i, env, depth)
+        if isinstance(t, ast.Compare) and len(t.ops) == 1:
+            l, op, r = t.left, t.ops[0], t.comparators[0]
+            if isinstance(op, (ast.In, ast.NotIn)):
+                inside = i in self.of_expr(m, r, env, depth)
+                return inside if isinstance(op, ast.In) else not inside
+            if isinstance(op, (ast.Eq, ast.NotEq)):
+                sl, sr = binds.get(U(l)), binds.get(U(r))
+                if sl and sr and {sl, sr} == {'first', 'last'}:
+                    return vals['E'] if isinstance(op, ast.Eq) else not vals['E']
+                side, other = (sl, r) if sl else (sr, l)
+                if side and isinstance(other, ast.Constant) and other.value == 0:
+                    z = vals['Z1'] if side == 'first' else vals['ZL']
+                    return z if isinstance(op, ast.Eq) else not z
+        raise AnalysisError('%s: filter `%s` is outside the classification algebra' % (m.qualname, U(t)[:60]))
+
+
+def classification(ctx):
+    P = ctx.P
+    ctx.rule('C04.7', 'heuristic detection classifies every (first trace, last trace) combination: varying -> stored array, '
+                      'constant non-zero -> table constant')
+    cls = P.cls('headers.HeaderwordInfo')
+    pr = _Pred(P, cls)
+    init = cls.methods['__init__']
+    # roles: the list whose members get a self-referential table entry + an array; the list of constants
+    arr_src = [a for a in ast.walk(init.node) if isinstance(a, ast.Assign) and U(a.targets[0]) == 'self.unique_variant_nonzero_header_words'
+               and isinstance(a.value, ast.Call) and U(a.value.func).startswith('self.')]
+    if not arr_src:
+        raise AnalysisError('HeaderwordInfo.__init__: the list of stored header words is no longer computed by a helper')
+    uniq = cls.methods.get(arr_src[0].value.func.attr)
+    # the variant base of the unique list and of the duplicate finder: the first helper call assigned in each
+    bases = {}
+    for m in (uniq, cls.methods.get('_find_duplicated_headerwords')):
+        if m is None:
+            raise AnalysisError('HeaderwordInfo: duplicate finder not found')
+        seeds = [a for a in ast.walk(m.node) if isinstance(a, ast.Assign) and isinstance(a.value, ast.Call) and
+                 isinstance(a.value.func, ast.Attribute) and U(a.value.func.value) == 'self' and
+                 'variant' in a.value.func.attr and 'duplic' not in a.value.func.attr]
+        if not seeds:
+            raise AnalysisError('%s: the variant base list is not obtained from a helper' % m.qualname)
+        bases[m] = seeds[0]
+    want_var = frozenset(i for i, (n_, v) in enumerate(CLASSES) if not v['E'])
+    for m, seed in bases.items():
+        got = pr.of_method(seed.value.func.attr)
+        missing = sorted(want_var - got)
+        extra = sorted(got - want_var)
+        if missing:
+            ctx.fail('C04.7', m, seed, 'a header field that is %s is not treated as varying by %s(): it gets neither a stored '
+                     'array nor a table constant and reads back as 0 in every trace' % (
+                         ' / '.join(CLASSES[i][0] for i in missing), seed.value.func.attr), key_extra='missing')
+        elif extra:
+            ctx.fail('C04.7', m, seed, '%s() also returns fields that are %s: a constant field is stored as if it varied' % (
+                seed.value.func.attr, ' / '.join(CLASSES[i][0] for i in extra)), key_extra='extra')
+        else:
+            ctx.ok('C04.7', m, seed, 'varying base = exactly the fields whose first and last values differ (3 of 5 classes)')
+    # constants
+    consts = [c for c in ast.walk(init.node) if isinstance(c, ast.Compare) and len(c.ops) == 1 and isinstance(c.ops[0], ast.In)
+              and isinstance(c.comparators[0], ast.Call) and 'invariant' in U(c.comparators[0].func)]
+    if not consts:
+        raise AnalysisError('HeaderwordInfo.__init__: the constant-field test was not found')
+    got = pr.of_expr(init, consts[0].comparators[0], {}, 0)
+    want_c = frozenset(i for i, (n_, v) in enumerate(CLASSES) if v['E'] and not v['Z1'])
+    if got == want_c:
+        ctx.ok('C04.7', init, consts[0], 'table constants = exactly the constant non-zero fields')
+    else:
+        bad = sorted(got ^ want_c)
+        ctx.fail('C04.7', init, consts[0], 'the table-constant test %s fields that are %s' % (
+            'misses' if set(bad) <= want_c else 'includes', ' / '.join(CLASSES[i][0] for i in bad)))
+    ctx.floor('C04.7', 3)
